@@ -321,6 +321,75 @@ fn check_inline_signature(sig: &str, names: &[String]) -> CaseResult {
     r
 }
 
+/// Second enumerated table: call sites inside defs. The optimiser inlines a call only when every argument is a constant
+/// or a definitely assigned local, which it approximates from the CALLER's signature; so the caller's signature (markers
+/// `*`, `/`, defaults, *args, **kwargs), the kind of argument (parameter, assigned local, conditionally assigned local,
+/// constant) and the path taken are enumerated against every optimiser-shaped callee body, visible vs hidden callee.
+fn check_caller_contexts(caller_sig: &str) -> CaseResult {
+    let mut a = String::new();
+    for (bi, b) in INLINE_BODIES.iter().enumerate() {
+        let body = b.replace("PALL", "p0").replace("P0", "p0").replace("PL", "p0");
+        a.push_str(&format!("def f{bi}(p0):\n    {body}\n"));
+        // a callee that does something observable before it reads its parameter
+        a.push_str(&format!("def g{bi}(p0):\n    return [emit(\"in-callee\"), {}]\n", body.strip_prefix("return ").unwrap_or("None")));
+    }
+    let fnames: Vec<String> = (0..INLINE_BODIES.len()).flat_map(|i| [format!("\"f{i}\""), format!("\"g{i}\"")]).collect();
+    let mut b = format!("load(\"a.star\", {})\n", fnames.join(", "));
+    let has_e = caller_sig.contains("e = ");
+    let mut arg_kinds: Vec<(&str, &str)> = vec![("cond-local", "y"), ("assigned-local", "z"), ("param", "flag"), ("const", "5"), ("second-cond-local", "w")];
+    if has_e {
+        arg_kinds.push(("default-param", "e"));
+    }
+    let mut calls: Vec<String> = Vec::new();
+    let mut ci = 0;
+    for bi in 0..INLINE_BODIES.len() {
+        for callee_prefix in ["f", "g"] {
+            for (_, arg) in &arg_kinds {
+                for hidden in [false, true] {
+                    let callee = if hidden { format!("opaque({callee_prefix}{bi})") } else { format!("{callee_prefix}{bi}") };
+                    b.push_str(&format!("def c{ci}({caller_sig}):\n    if flag:\n        y = 1\n        w = 2\n    z = flag\n    return {callee}({arg})\n"));
+                    calls.push(format!("c{ci}"));
+                    ci += 1;
+                }
+            }
+        }
+    }
+    for c in &calls {
+        b.push_str(&format!("emit(catch(lambda: {c}(False)))\nemit(catch(lambda: {c}(True)))\nemit(\"--\")\n"));
+    }
+    let mut r = CaseResult::new(format!("[caller-context table] def c({caller_sig}) calling f(arg) for {} bodies x {} argument kinds", INLINE_BODIES.len(), arg_kinds.len()));
+    let cfg = sl::RunCfg::default();
+    let (a_out, fm) = sl::run_and_freeze("a.star", &a, &cfg, &[]);
+    let Some(fm) = fm else {
+        r.fail("generator-bug", format!("caller-context table: defining module failed: {:?}\n{a}", a_out.result.err().map(|e| e.msg)));
+        return r;
+    };
+    let out = sl::run_src("b.star", &b, &cfg, &[("a.star", &fm)]);
+    if let Err(e) = &out.result {
+        r.fail("generator-bug", format!("caller-context table: calling module failed: {}\n{}", e.msg, truncate(&b, 1500)));
+        return r;
+    }
+    // transcript: per caller a group of records ended by "--"; callers come in (visible, hidden) pairs
+    let groups: Vec<Vec<String>> = out.tx.split(|t| t == "\"--\"").map(|g| g.to_vec()).collect();
+    r.evals = out.tx.len() as u64;
+    let mut gi = 0;
+    for bi in 0..INLINE_BODIES.len() {
+        for callee_prefix in ["f", "g"] {
+            for (kind, arg) in &arg_kinds {
+                let (vis, hid) = (groups.get(gi), groups.get(gi + 1));
+                gi += 2;
+                if vis != hid {
+                    r.fail("opt-transcript", format!("def c({caller_sig}) with `if flag: y = 1; w = 2` / `z = flag`, calling the loaded frozen def {callee_prefix}(p0): {} with argument `{arg}` ({kind}): c(False), c(True) give {:?}; with the callee behind opaque() they give {:?}", INLINE_BODIES[bi], vis, hid));
+                }
+                r.nontrivial.push(fnv(format!("{caller_sig}|{bi}|{callee_prefix}|{arg}").as_bytes()));
+            }
+        }
+    }
+    r
+}
+
+const CALLER_SIGS: &[&str] = &["flag", "flag, *, e = 1", "flag, /", "flag, /, e = 1", "flag, /, *, e = 1", "flag, e = 1, *rest", "flag, **kw", "flag, *, e = 1, **kw", "flag, *rest, e = 1", "flag, /, e = 1, *rest, **kw"];
+
 fn def_only(plain: &str) -> String {
     let mut s = String::from("def main():\n");
     for l in plain.lines() {
@@ -383,6 +452,12 @@ impl Prop for C02 {
                 continue;
             }
             sink(check_inline_signature(sig, names));
+        }
+        for (i, sig) in CALLER_SIGS.iter().enumerate() {
+            if (i + 3) % ctx.workers != ctx.worker {
+                continue;
+            }
+            sink(check_caller_contexts(sig));
         }
     }
     fn render(&self, _ctx: &mut Ctx, ch: &mut Choices) -> String {
